@@ -20,7 +20,7 @@ OFF_MAX = 64800
 
 META = {
     "property": "C07",
-    "proof_modules": ["PyodaProofs.C07", "PyodaProofs.C07b", "PyodaProofs.C07Stepped", "PyodaProofs.C07Reformat", "PyodaProofs.C07Instances", "PyodaProofs.C07DateTime", "PyodaProofs.C07Text", "PyodaProofs.C07TextInstances", "PyodaProofs.C07Duration", "PyodaProofs.C07Segmented", "PyodaProofs.C07SegmentedInstances"],
+    "proof_modules": ["PyodaProofs.C07", "PyodaProofs.C07b", "PyodaProofs.C07Stepped", "PyodaProofs.C07Reformat", "PyodaProofs.C07Instances", "PyodaProofs.C07DateTime", "PyodaProofs.C07Text", "PyodaProofs.C07TextInstances", "PyodaProofs.C07Duration", "PyodaProofs.C07Segmented", "PyodaProofs.C07SegmentedInstances", "PyodaProofs.C07Calendar", "PyodaProofs.C07Instant"],
     "drivers": ["drv_text"],
     "theorems": [
         "Pyoda.C07.parseDigits_leftPad",
@@ -119,6 +119,22 @@ META = {
         "Pyoda.C07.embedded_compiles",
         "Pyoda.C07.embedded_delimited",
         "Pyoda.C07.embedded_generic_roundtrip",
+        "Pyoda.C07.eraC_roundtrip",
+        "Pyoda.C07.matchText_diverge",
+        "Pyoda.C07.parseCalendarId_of_diverge",
+        "Pyoda.C07.calIdOK_all",
+        "Pyoda.C07.fullDate_compiles",
+        "Pyoda.C07.fullDate_delimited",
+        "Pyoda.C07.calendar_years_four_digits",
+        "Pyoda.C07.fullDate_generic_roundtrip",
+        "Pyoda.C07.validDate_of_validate",
+        "Pyoda.C07.instantFields_spec",
+        "Pyoda.C07.daysOfDate_spec",
+        "Pyoda.C07.instant_adapter_roundtrip",
+        "Pyoda.C07.isoInstant_compiles",
+        "Pyoda.C07.isoInstant_delimited",
+        "Pyoda.C07.isoInstantPattern_roundtrip",
+        "Pyoda.C07.isoInstant_generic_roundtrip",
     ],
     "trusted_base": [
         "float step of _ValueCursor._parse_fraction (int(result * math.pow(10.0, scale - count))) is exact for at most 9 digits (products below 2^53); sampled by suite text.num",
@@ -127,11 +143,12 @@ META = {
     "partial": [
         "the theorems cover the modelled subset only: numeric primitives and the built-in ISO patterns (LocalDatePattern.iso, LocalTimePattern.extended_iso/long_extended_iso/general_iso, LocalDateTimePattern.extended_iso/general_iso/bcl_round_trip, InstantPattern.extended_iso/general over date-time fields, OffsetPattern g/G in the invariant culture) as straight-line functions",
         "generic engine (PyodaModel/Text/Stepped, Engine, Buckets; tied to the code by suites text.pat.compile/fmt/parse): stepped_roundtrip and pattern_roundtrip hold for every culture record and every Delimited list of steps of LocalTime, LocalDate (ISO), LocalDateTime (ISO, any template), Offset, AnnualDate (any template) and Duration patterns: literal / padded numeric / fraction (f, F, .F, ;F) / ';' / sign steps and the TEXT steps month names (MMM, MMMM; genitive and plain tables searched together), day names (ddd, dddd), am/pm designators (t, tt), era names (g) and the calendar id (c, ISO values); 'Representable' is stated as: the value is determined by the projection of its fields onto the slots the pattern sets; it is discharged for LocalTimePattern.extended_iso, LocalDatePattern.iso, the long Offset pattern, LocalDateTimePattern.extended_iso, the invariant long-date pattern 'dddd, dd MMMM yyyy' (every date of the common era), 'hh:mm tt' (every whole minute), AnnualDatePattern.iso (every annual date) and DurationPattern.roundtrip '-D:hh:mm:ss.FFFFFFFFF' and json_roundtrip '-H:mm:ss.FFFFFFFFF' for EVERY Duration from min_value to max_value inclusive (…_generic_roundtrip); other patterns instantiate it case by case; the share of generated patterns for which the decidable criterion Delimited holds is recorded under notes",
-        "text steps: Delimited includes the decidable culture conditions NamesOK = monthNamesOK / dayNamesOK (every name of the table used on format is non-empty and no other position of the tables searched on parse holds a name of the same length equal to it up to ASCII case), amPmOK (t: first characters differ up to case; tt: the shorter designator is not a prefix of the longer up to case), eraOK (scanning the era names in parse order, the first name matching a primary name is that name) AND that the literal/field that follows a text step cannot continue a written name into a longer candidate (monthDanger / dayDanger / amPmDanger / eraDanger = the characters by which some candidate strictly extends a formatted name; Follow.notCharCI); the core theorem is parseLongest_formatted; the conditions are evaluated per run by the model (op cu.names, suite text.names, compared with the harness's own evaluation on the code's format info) and cultures failing them are listed in the notes together with concrete values that do not round-trip on the real code (e.g. 'h:mm t' where both designators start with the same character; 'MMM.'-style patterns where one month table has 'Jan' and the other 'Jan.'): these are properties of the culture data, not of the engine; case folding is ASCII in the model (texts and cultures with non-ASCII names are compared by the direct oracles only, the model answers !dom)",
+        "text steps: Delimited includes the decidable culture conditions NamesOK = monthNamesOK / dayNamesOK (every name of the table used on format is non-empty and no other position of the tables searched on parse holds a name of the same length equal to it up to ASCII case), amPmOK (t: first characters differ up to case; tt: the shorter designator is not a prefix of the longer up to case), eraOK (scanning the era names in parse order, the first name matching a primary name is that name) AND that the literal/field that follows a text step cannot continue a written name into a longer candidate (monthDanger / dayDanger / amPmDanger / eraDanger = the characters by which some candidate strictly extends a formatted name; Follow.notCharCI); the core theorem is parseLongest_formatted; the conditions are evaluated per run by the model (op cu.names, suite text.names, compared with the harness's own evaluation on the code's format info) and cultures failing them are listed in the notes together with concrete values that do not round-trip on the real code (e.g. 'h:mm t' where both designators start with the same character; 'MMM.'-style patterns where one month table has 'Jan' and the other 'Jan.'): these are properties of the culture data, not of the engine; CASE FOLDING is a parameter: _match_case_insensitive compares substring.lower() == match.lower(), modelled character by character with the folding lowC cu = ASCII lower-casing plus the run's table cu.fold of (character, str.lower(character)) pairs for the non-ASCII characters of the culture's names and of the text at hand (sent with every pat.parse / cu.names / pat.delim op); every theorem of C07Text.lean (mCI_short/long, findLongest_inv, parseLongest_formatted, the month/day/am-pm/era round trips) is stated and proved for ANY folding function Char -> Char (no idempotence needed), the culture-level ones for lowC cu with any table; the model answers !dom only when a character is not listed, which the harness arranges for exactly the two characters whose str.lower() is not character-wise: U+0130 (two characters) and U+03A3 (final-sigma rule) — about 0.2 % of the hostile parse ops (was 20 %)",
         "LocalDateTime custom patterns (one step list over date and time fields, combined bucket dtValue = _combine_buckets incl. the 24:00 roll-over, any ISO template value) are inside the engine (datetime_pattern_roundtrip); Representable is discharged for LocalDateTimePattern.extended_iso for every value and every template with whole seconds (isoDateTime_generic_roundtrip; an omitted optional fraction takes the template's fraction, example in C07DateTime.lean); tied to LocalDateTimePattern.create(text, culture, template) by suites text.pat.compile/fmt/parse (type tokens datetime / datetime:y,m,d,nod)",
         "patterns with embedded parts (ld<...>, lt<...> = Pat.segmented): segmented_roundtrip holds for every culture record, every template and every list of segments passing the decidable criterion DelimitedSegs (Delimited segment by segment — plain steps in the outer culture / field set, an embedded pattern in its own — each step against the text the FOLLOWING segments write: followF / segFollow; the trailing-dot buffer invariant is threaded through the segments), for values whose fields the steps can hold (SegValOK) and that the embedded patterns and the outer bucket represent (RepresentableSeg: each embedded pattern's own calculate_value returns its part, dtValueE of the outer bucket returns the value); discharged for ld<yyyy-MM-dd>'T'lt<HH:mm:ss> (embedded_compiles: it is what compileDateTime builds; embedded_generic_roundtrip: every common-era date with every time of day whose fraction of a second is the template's, any common-era template); DelimitedSegs is evaluated by the model on every generated pattern with embedded parts (op pat.delim = 3 / 2, share recorded under notes)",
-        "NOT covered by theorems (correspondence and direct oracles only): the calendar field for non-ISO values, the Instant <-> UTC date-time conversion of the Instant adapter (Instant patterns are LocalDateTime patterns over the UTC fields: type token instant), non-ISO calendars, non-ASCII case folding, ICU culture data extraction; reformat_idempotent (generic engine) covers patterns of literals and full-width non-negative numeric fields with distinct slots at the level of steps and buckets (the accessors must return the parsed field values); variable-width fields, fractions, signs and the sign-carrying 'uuuu' are excluded (negative zero, optional parts)",
-        "Instant/LocalDate day-number <-> (year, month, day) conversion is outside the Text model (the harness passes date fields)",
+        "all 19 calendars are inside the model (date fields, year of era / era of every calendar, the calendar field c for every id, template values in any calendar: type tokens dateC:/datetimeC:, values with their calendar ordinal; calculate_value through the calendar descriptions Calendar.Calc of property C01, with the repaired behaviour of the calendar-from-text finding) and tied to the code by suites text.pat.compile/fmt/parse over all 19 calendars; stepped_roundtrip / pattern_roundtrip cover the calendar step for every calendar (calendar_roundtrip: the id of any ordinal 0..18 is written and read back into the bucket's calendar slot; the ids are prefix-free in both directions, calIdOK_all) and the era step of the single-era calendars (eraC_roundtrip); Representable is discharged for LocalDatePattern.full_roundtrip uuuu'-'MM'-'dd '('c')' for EVERY date of EVERY calendar (fullDate_generic_roundtrip: any ordinal, any date the calendar has); other non-ISO patterns instantiate it case by case",
+        "the Instant adapter is inside the model (PyodaModel/Text/InstantAdapter.lean, ops inst.fmt / inst.parse over (day number, nanosecond of day), StartOfTime / EndOfTime for the two sentinel instants): Instant -> in_utc().local_date_time through the calendar-less ISO constructor of the C01 calendar model (Greg.ymdOfDaysFast + the packed representation), LocalDateTime -> Instant through _get_days_since_epoch of the date's calendar; instantFields_spec / daysOfDate_spec: the two conversions are mutually inverse on the whole Instant range (from C01: gregorian_days_ymd_days, gregorian_ymd_days_ymd, the table paths greg_ymdOfDaysFast_eq / greg_daysOfYmdFast_eq, viaPacked_id); instant_adapter_roundtrip: if the LocalDateTime pattern round-trips the UTC date-time, the Instant pattern round-trips the instant; isoInstant_generic_roundtrip: InstantPattern.extended_iso round-trips EVERY Instant (min_value .. max_value, every nanosecond) through the generic engine",
+        "NOT covered by theorems (correspondence and direct oracles only): str.lower() for U+0130 / U+03A3 (see above), ICU culture data extraction; reformat_idempotent (generic engine) covers patterns of literals and full-width non-negative numeric fields with distinct slots at the level of steps and buckets (the accessors must return the parsed field values); variable-width fields, fractions, signs and the sign-carrying 'uuuu' are excluded (negative zero, optional parts)",
     ],
     "rule": "distinct = distinct (pattern, culture, value) triple or op line; non-trivial = the pattern was created and the value formatted",
 }
